@@ -261,6 +261,23 @@ func checkUnmarshalPlumbing(p *Prog, r *Report, prefix string) {
 				return
 			}
 			sc := c.Common().StaticCallee()
+			// a decode helper called from the loop: its decode targets are its own
+			// locals, fresh on every call
+			if sc != nil && relLoop[c.Block()] && smallHelper(sc) {
+				eachInstr(sc, func(i2 ssa.Instruction) {
+					c2, ok := i2.(*ssa.Call)
+					if !ok || c2.Common().StaticCallee() == nil || fullName(c2.Common().StaticCallee()) != "encoding/json.Unmarshal" {
+						return
+					}
+					if al, ok := stripValue(c2.Common().Args[1]).(*ssa.Alloc); ok {
+						if tn := structName(al.Type()); tn == "Identifier" || tn == "Identifiers" {
+							nLink++
+							r.ok(prefix+".fresh-linkage", name+":"+funcName(sc)+":"+al.Comment, p.pos(c2.Pos()), "the decode target is a local of a helper called once per relationship")
+						}
+					}
+				})
+				return
+			}
 			if sc == nil || fullName(sc) != "encoding/json.Unmarshal" || !relLoop[c.Block()] {
 				return
 			}
@@ -346,6 +363,23 @@ func checkUnmarshalPlumbing(p *Prog, r *Report, prefix string) {
 // relValueFromLinkage: v is iden.ID, or a slice filled by ids[i] = idens[i].ID
 // over i (same index on both sides), with no other call touching it.
 func relValueFromLinkage(v ssa.Value, loop map[*ssa.BasicBlock]bool) bool {
+	// the first result of a decode helper every return of which is such a value
+	if ex, isEx := v.(*ssa.Extract); isEx && ex.Index == 0 {
+		if hc, isCall := ex.Tuple.(*ssa.Call); isCall {
+			if g := hc.Common().StaticCallee(); g != nil && smallHelper(g) {
+				n := 0
+				for _, b := range g.Blocks {
+					if ret, ok := b.Instrs[len(b.Instrs)-1].(*ssa.Return); ok && len(ret.Results) > 0 {
+						n++
+						if !relValueFromLinkage(ret.Results[0], nil) {
+							return false
+						}
+					}
+				}
+				return n > 0
+			}
+		}
+	}
 	mi, ok := v.(*ssa.MakeInterface)
 	if !ok {
 		return false
